@@ -401,3 +401,517 @@ package getoptions
 //@   requires gopt != nil && gopt.programTree != nil
 //@   modifies
 //@   ensures len(sections) == 0 ==> result == helptext(ite(gopt.finalNode != nil, gopt.finalNode, gopt.programTree))
+
+// ---- option definition: modifiers (ModifyFn) and typed definers ---------------------------------
+//
+// Contract every option modifier has to satisfy (the library's own modifiers are verified against it;
+// user-written modifiers are assumed to satisfy it).
+//@ spec func Tbl(g *GetOpt) map[string]*option.Option = g.programTree.ChildOptions
+//@ func type ModifyFn(parent, opt)
+//@   props C06 C12 C19
+//@   requires mod.pre: parent != nil && parent.programTree != nil && NodeOK(parent.programTree) && opt != nil && OptOK(opt)
+//@   modifies opt.Aliases, opt.HelpSynopsis, opt.Description, opt.Called, opt.UsedAlias, opt.IsRequired, opt.IsRequiredErr, opt.EnvVar, opt.HelpArgName,
+//@     opt.ValidValues, opt.SuggestedValues, opt.SuggestedValuesFn, opt.DefaultStr, mapof(parent.programTree.ChildOptions),
+//@     *opt.pBool, *opt.pString, *opt.pInt, *opt.pFloat64
+//@   ensures mod.kept {C06}: forall k string :: old(k in Tbl(parent)) ==> (k in Tbl(parent)) && Tbl(parent)[k] == old(Tbl(parent)[k])
+//@   ensures mod.newkeys {C06}: forall k string :: (k in Tbl(parent)) && !old(k in Tbl(parent)) ==> Tbl(parent)[k] == opt
+//@ end
+
+//@ func (*GetOpt).Alias$1
+//@   props C06 C05 C19
+//@   implements type ModifyFn
+//@   maypanic alias.invalid: true
+//@   ensures alias.keys {C06}: forall i int :: 0 <= i && i < len(alias) ==> (alias[i] in Tbl(parent)) && Tbl(parent)[alias[i]] == opt
+//@   ensures alias.list {C06,C18}: isconcat(opt.Aliases, old(opt.Aliases), alias)
+//@   loop "for _, a := range alias"
+//@     modifies mapof(parent.programTree.ChildOptions)
+//@     invariant alias.sofar: forall i int :: 0 <= i && i <= $idx ==> (alias[i] in Tbl(parent)) && Tbl(parent)[alias[i]] == opt
+//@     invariant alias.kept: forall k string :: old(k in Tbl(parent)) ==> (k in Tbl(parent)) && Tbl(parent)[k] == old(Tbl(parent)[k])
+//@     invariant alias.newkeys: forall k string :: (k in Tbl(parent)) && !old(k in Tbl(parent)) ==> Tbl(parent)[k] == opt
+//@     invariant alias.nonnil: forall k string :: (k in Tbl(parent)) ==> Tbl(parent)[k] != nil
+
+//@ func (*GetOpt).Description$1
+//@   props C18 C19
+//@   implements type ModifyFn
+//@   ensures opt.Description == msg
+
+//@ func (*GetOpt).SetCalled$1
+//@   props C06 C19
+//@   implements type ModifyFn
+//@   ensures setcalled {C06}: opt.Called == called
+
+//@ func (*GetOpt).Required$1
+//@   props C11 C19
+//@   implements type ModifyFn
+//@   ensures required.set {C11}: opt.IsRequired && opt.IsRequiredErr == errTxt
+
+//@ func (*GetOpt).ArgName$1
+//@   props C18 C19
+//@   implements type ModifyFn
+//@   ensures opt.HelpArgName == name
+
+//@ func (*GetOpt).ValidValues$1
+//@   props C17 C19
+//@   implements type ModifyFn
+//@   ensures isconcat(opt.ValidValues, old(opt.ValidValues), values) && identical(opt.SuggestedValues, opt.ValidValues)
+
+//@ func (*GetOpt).SuggestedValues$1
+//@   props C17 C19
+//@   implements type ModifyFn
+//@   ensures isconcat(opt.SuggestedValues, old(opt.SuggestedValues), values)
+
+//@ func (*GetOpt).SuggestedValuesFn$1
+//@   props C17 C19
+//@   implements type ModifyFn
+//@   ensures opt.SuggestedValuesFn == fn
+
+// Environment binding (C12): evaluated at definition time, i.e. before any command-line Save.
+//@ spec func EnvV(name string) string = getenv(name)
+//@ spec func OneValid(o *option.Option, v string) bool = len(o.ValidValues) == 0 || InValid(o, v)
+//@ spec func ScalarsKept(o *option.Option) bool = *o.pBool == old(*o.pBool) && *o.pString == old(*o.pString) && *o.pInt == old(*o.pInt) && *o.pFloat64 == old(*o.pFloat64)
+//@ func (*GetOpt).GetEnv$1
+//@   props C12 C19
+//@   implements type ModifyFn
+//@   requires env.private: &name != opt.pString    //# the captured variable is private to the closure (assumption)
+//@   ensures env.var {C12}: opt.EnvVar == name
+//@   ensures env.unset {C12}: EnvV(name) == "" ==> ScalarsKept(opt) && opt.Called == old(opt.Called) && opt.UsedAlias == old(opt.UsedAlias)
+//@   ensures env.bool {C12}: opt.OptType == option.BoolType && EnvV(name) != "" && (lower(EnvV(name)) == "true" || lower(EnvV(name)) == "false") && OneValid(opt, lower(EnvV(name)))
+//@     ==> *opt.pBool == (lower(EnvV(name)) == "true") && opt.Called && opt.UsedAlias == name
+//@   ensures env.bool.invalid {C12}: opt.OptType == option.BoolType && !(lower(EnvV(name)) == "true" || lower(EnvV(name)) == "false")
+//@     ==> ScalarsKept(opt) && opt.Called == old(opt.Called) && opt.UsedAlias == old(opt.UsedAlias)
+//@   ensures env.string {C12}: IsStringKind(opt.OptType) && EnvV(name) != "" && OneValid(opt, EnvV(name)) ==> *opt.pString == EnvV(name) && opt.Called && opt.UsedAlias == name
+//@   ensures env.int.ok {C12}: IsIntKind(opt.OptType) && EnvV(name) != "" && OneValid(opt, EnvV(name)) && atoi_ok(EnvV(name)) ==> *opt.pInt == atoi_val(EnvV(name)) && opt.Called && opt.UsedAlias == name
+//@   ensures env.int.bad {C12}: IsIntKind(opt.OptType) && EnvV(name) != "" && !atoi_ok(EnvV(name)) ==> *opt.pInt == old(*opt.pInt)
+//@   ensures env.float.ok {C12}: IsFloatKind(opt.OptType) && EnvV(name) != "" && OneValid(opt, EnvV(name)) && pf_ok(EnvV(name)) ==> *opt.pFloat64 == pf_val(EnvV(name)) && opt.Called && opt.UsedAlias == name
+//@   ensures env.float.bad {C12}: IsFloatKind(opt.OptType) && EnvV(name) != "" && !pf_ok(EnvV(name)) ==> *opt.pFloat64 == old(*opt.pFloat64)
+//@   ensures env.other {C12}: (opt.OptType == option.IncrementType || IsMultiKind(opt.OptType)) ==> ScalarsKept(opt) && opt.Called == old(opt.Called) && opt.UsedAlias == old(opt.UsedAlias)
+
+// ---- help command ---------------------------------------------------------------------------------
+//@ func runHelp
+//@   props C11 C19
+//@   requires runhelp.pre: opt != nil && opt.programTree != nil && opt.programTree.Parent != nil && NodeOK(opt.programTree.Parent)
+//@   modifies $out
+//@   ensures runhelp.self {C11}: len(args) == 0 ==> result == ErrorHelpCalled && $out == old($out) ++ helptext(opt.programTree.Parent)
+//@   ensures runhelp.unknown {C11}: len(args) > 0 && (forall k string :: (k in opt.programTree.Parent.ChildCommands) ==> opt.programTree.Parent.ChildCommands[k].Name != args[0])
+//@     ==> result != nil && result != ErrorHelpCalled && $out == old($out)
+//@   ensures runhelp.topic {C11}: len(args) > 0 && result == ErrorHelpCalled
+//@     ==> (exists k string :: (k in opt.programTree.Parent.ChildCommands) && opt.programTree.Parent.ChildCommands[k].Name == args[0] && $out == old($out) ++ helptext(opt.programTree.Parent.ChildCommands[k]))
+//@   loop "for _, command := range opt.programTree.Parent.ChildCommands"
+//@     invariant help.scanned: forall q string :: (q in $seen) ==> opt.programTree.Parent.ChildCommands[q].Name != args[0]
+//@     invariant help.out: $out == old($out)
+
+//@ func (*GetOpt).SetCommandFn
+//@   props C10 C19
+//@   requires gopt != nil && gopt.programTree != nil
+//@   modifies gopt.programTree.CommandFn
+//@   ensures setfn {C10}: gopt.programTree.CommandFn == fn && result == gopt
+
+//@ func (*GetOpt).SetMode
+//@   props C07 C19
+//@   requires gopt != nil && gopt.programTree != nil
+//@   modifies gopt.programTree.mode
+//@   ensures setmode {C07}: gopt.programTree.mode == mode && result == gopt
+
+//@ func (*GetOpt).SetUnknownMode
+//@   props C08 C19
+//@   requires gopt != nil && gopt.programTree != nil
+//@   modifies gopt.programTree.unknownMode
+//@   ensures setunknown {C08}: gopt.programTree.unknownMode == mode && result == gopt
+
+//@ func (*GetOpt).SetRequireOrder
+//@   props C09 C19
+//@   requires gopt != nil && gopt.programTree != nil
+//@   modifies gopt.programTree.requireOrder
+//@   ensures setorder {C09}: gopt.programTree.requireOrder && result == gopt
+
+//@ func (*GetOpt).SetValue
+//@   props C06 C19
+//@   requires gopt != nil && gopt.programTree != nil && NodeOK(gopt.programTree)
+
+// ---- typed definers (generated by /verif/tools/gen_definer_contracts.py; one uniform contract per kind) ----
+// A definer registers a fresh record under the name, wires the caller's variable as its receiver, writes the
+// default once, and then applies the modifiers. It may panic only on an invalid definition.
+//@ spec func FnsOK(fns []ModifyFn) bool = forall i int :: 0 <= i && i < len(fns) ==> fns[i] != nil
+
+//@ func (*GetOpt).BoolVar
+//@   props C06 C01 C02 C12 C19
+//@   requires def.gopt: gopt != nil && gopt.programTree != nil && NodeOK(gopt.programTree) && FnsOK(fns) && p != nil
+//@   maypanic def.invalid: name == "" || (name in Tbl(gopt))
+//@   allocates option.Option, map[string]string
+//@   modifies *p, mapof(gopt.programTree.ChildOptions)
+//@   ensures def.registered {C06}: (name in Tbl(gopt)) && fresh(Tbl(gopt)[name]) && Tbl(gopt)[name].pBool == p && Tbl(gopt)[name].OptType == option.BoolType && Tbl(gopt)[name].Name == name
+//@   ensures def.kept {C06}: forall k string :: old(k in Tbl(gopt)) ==> (k in Tbl(gopt)) && Tbl(gopt)[k] == old(Tbl(gopt)[k])
+//@   ensures def.newkeys {C06}: forall k string :: (k in Tbl(gopt)) && !old(k in Tbl(gopt)) ==> Tbl(gopt)[k] == Tbl(gopt)[name]
+//@   ensures def.default {C06,C12}: len(fns) == 0 ==> *p == def && !Tbl(gopt)[name].Called && Tbl(gopt)[name].UsedAlias == ""
+//@   ensures def.node: NodeOK(gopt.programTree)
+//@   loop "for _, fn := range fns"
+//@     invariant defs.rec: (name in Tbl(gopt)) && Tbl(gopt)[name] == n && n != nil && fresh(n) && OptOK(n) && n.pBool == p && n.OptType == option.BoolType && n.Name == name
+//@     invariant defs.kept: forall k string :: old(k in Tbl(gopt)) ==> (k in Tbl(gopt)) && Tbl(gopt)[k] == old(Tbl(gopt)[k])
+//@     invariant defs.newkeys: forall k string :: (k in Tbl(gopt)) && !old(k in Tbl(gopt)) ==> Tbl(gopt)[k] == n
+//@     invariant defs.node: NodeOK(gopt.programTree)
+//@     invariant defs.first: $idx == 0 - 1 ==> *p == def && !n.Called && n.UsedAlias == ""
+
+//@ func (*GetOpt).Bool
+//@   props C06 C01 C02 C12 C19
+//@   requires def.gopt: gopt != nil && gopt.programTree != nil && NodeOK(gopt.programTree) && FnsOK(fns)
+//@   maypanic def.invalid: name == "" || (name in Tbl(gopt))
+//@   allocates option.Option, bool
+//@   modifies mapof(gopt.programTree.ChildOptions)
+//@   ensures def.result {C06}: result != nil && fresh(result)
+//@   ensures def.registered {C06}: (name in Tbl(gopt)) && fresh(Tbl(gopt)[name]) && Tbl(gopt)[name].pBool == result && Tbl(gopt)[name].OptType == option.BoolType && Tbl(gopt)[name].Name == name
+//@   ensures def.kept {C06}: forall k string :: old(k in Tbl(gopt)) ==> (k in Tbl(gopt)) && Tbl(gopt)[k] == old(Tbl(gopt)[k])
+//@   ensures def.newkeys {C06}: forall k string :: (k in Tbl(gopt)) && !old(k in Tbl(gopt)) ==> Tbl(gopt)[k] == Tbl(gopt)[name]
+//@   ensures def.default {C06,C12}: len(fns) == 0 ==> *result == def && !Tbl(gopt)[name].Called && Tbl(gopt)[name].UsedAlias == ""
+//@   ensures def.node: NodeOK(gopt.programTree)
+
+//@ func (*GetOpt).StringVar
+//@   props C06 C01 C02 C12 C19
+//@   requires def.gopt: gopt != nil && gopt.programTree != nil && NodeOK(gopt.programTree) && FnsOK(fns) && p != nil
+//@   maypanic def.invalid: name == "" || (name in Tbl(gopt))
+//@   allocates option.Option, map[string]string
+//@   modifies *p, mapof(gopt.programTree.ChildOptions)
+//@   ensures def.registered {C06}: (name in Tbl(gopt)) && fresh(Tbl(gopt)[name]) && Tbl(gopt)[name].pString == p && Tbl(gopt)[name].OptType == option.StringType && Tbl(gopt)[name].Name == name
+//@   ensures def.kept {C06}: forall k string :: old(k in Tbl(gopt)) ==> (k in Tbl(gopt)) && Tbl(gopt)[k] == old(Tbl(gopt)[k])
+//@   ensures def.newkeys {C06}: forall k string :: (k in Tbl(gopt)) && !old(k in Tbl(gopt)) ==> Tbl(gopt)[k] == Tbl(gopt)[name]
+//@   ensures def.default {C06,C12}: len(fns) == 0 ==> *p == def && !Tbl(gopt)[name].Called && Tbl(gopt)[name].UsedAlias == ""
+//@   ensures def.node: NodeOK(gopt.programTree)
+//@   loop "for _, fn := range fns"
+//@     invariant defs.rec: (name in Tbl(gopt)) && Tbl(gopt)[name] == n && n != nil && fresh(n) && OptOK(n) && n.pString == p && n.OptType == option.StringType && n.Name == name
+//@     invariant defs.kept: forall k string :: old(k in Tbl(gopt)) ==> (k in Tbl(gopt)) && Tbl(gopt)[k] == old(Tbl(gopt)[k])
+//@     invariant defs.newkeys: forall k string :: (k in Tbl(gopt)) && !old(k in Tbl(gopt)) ==> Tbl(gopt)[k] == n
+//@     invariant defs.node: NodeOK(gopt.programTree)
+//@     invariant defs.first: $idx == 0 - 1 ==> *p == def && !n.Called && n.UsedAlias == ""
+
+//@ func (*GetOpt).String
+//@   props C06 C01 C02 C12 C19
+//@   requires def.gopt: gopt != nil && gopt.programTree != nil && NodeOK(gopt.programTree) && FnsOK(fns)
+//@   maypanic def.invalid: name == "" || (name in Tbl(gopt))
+//@   allocates option.Option, string
+//@   modifies mapof(gopt.programTree.ChildOptions)
+//@   ensures def.result {C06}: result != nil && fresh(result)
+//@   ensures def.registered {C06}: (name in Tbl(gopt)) && fresh(Tbl(gopt)[name]) && Tbl(gopt)[name].pString == result && Tbl(gopt)[name].OptType == option.StringType && Tbl(gopt)[name].Name == name
+//@   ensures def.kept {C06}: forall k string :: old(k in Tbl(gopt)) ==> (k in Tbl(gopt)) && Tbl(gopt)[k] == old(Tbl(gopt)[k])
+//@   ensures def.newkeys {C06}: forall k string :: (k in Tbl(gopt)) && !old(k in Tbl(gopt)) ==> Tbl(gopt)[k] == Tbl(gopt)[name]
+//@   ensures def.default {C06,C12}: len(fns) == 0 ==> *result == def && !Tbl(gopt)[name].Called && Tbl(gopt)[name].UsedAlias == ""
+//@   ensures def.node: NodeOK(gopt.programTree)
+
+//@ func (*GetOpt).StringVarOptional
+//@   props C06 C01 C02 C12 C19
+//@   requires def.gopt: gopt != nil && gopt.programTree != nil && NodeOK(gopt.programTree) && FnsOK(fns) && p != nil
+//@   maypanic def.invalid: name == "" || (name in Tbl(gopt))
+//@   allocates option.Option, map[string]string
+//@   modifies *p, mapof(gopt.programTree.ChildOptions)
+//@   ensures def.registered {C06}: (name in Tbl(gopt)) && fresh(Tbl(gopt)[name]) && Tbl(gopt)[name].pString == p && Tbl(gopt)[name].OptType == option.StringOptionalType && Tbl(gopt)[name].Name == name
+//@   ensures def.kept {C06}: forall k string :: old(k in Tbl(gopt)) ==> (k in Tbl(gopt)) && Tbl(gopt)[k] == old(Tbl(gopt)[k])
+//@   ensures def.newkeys {C06}: forall k string :: (k in Tbl(gopt)) && !old(k in Tbl(gopt)) ==> Tbl(gopt)[k] == Tbl(gopt)[name]
+//@   ensures def.default {C06,C12}: len(fns) == 0 ==> *p == def && !Tbl(gopt)[name].Called && Tbl(gopt)[name].UsedAlias == ""
+//@   ensures def.node: NodeOK(gopt.programTree)
+//@   loop "for _, fn := range fns"
+//@     invariant defs.rec: (name in Tbl(gopt)) && Tbl(gopt)[name] == n && n != nil && fresh(n) && OptOK(n) && n.pString == p && n.OptType == option.StringOptionalType && n.Name == name
+//@     invariant defs.kept: forall k string :: old(k in Tbl(gopt)) ==> (k in Tbl(gopt)) && Tbl(gopt)[k] == old(Tbl(gopt)[k])
+//@     invariant defs.newkeys: forall k string :: (k in Tbl(gopt)) && !old(k in Tbl(gopt)) ==> Tbl(gopt)[k] == n
+//@     invariant defs.node: NodeOK(gopt.programTree)
+//@     invariant defs.first: $idx == 0 - 1 ==> *p == def && !n.Called && n.UsedAlias == ""
+
+//@ func (*GetOpt).StringOptional
+//@   props C06 C01 C02 C12 C19
+//@   requires def.gopt: gopt != nil && gopt.programTree != nil && NodeOK(gopt.programTree) && FnsOK(fns)
+//@   maypanic def.invalid: name == "" || (name in Tbl(gopt))
+//@   allocates option.Option, string
+//@   modifies mapof(gopt.programTree.ChildOptions)
+//@   ensures def.result {C06}: result != nil && fresh(result)
+//@   ensures def.registered {C06}: (name in Tbl(gopt)) && fresh(Tbl(gopt)[name]) && Tbl(gopt)[name].pString == result && Tbl(gopt)[name].OptType == option.StringOptionalType && Tbl(gopt)[name].Name == name
+//@   ensures def.kept {C06}: forall k string :: old(k in Tbl(gopt)) ==> (k in Tbl(gopt)) && Tbl(gopt)[k] == old(Tbl(gopt)[k])
+//@   ensures def.newkeys {C06}: forall k string :: (k in Tbl(gopt)) && !old(k in Tbl(gopt)) ==> Tbl(gopt)[k] == Tbl(gopt)[name]
+//@   ensures def.default {C06,C12}: len(fns) == 0 ==> *result == def && !Tbl(gopt)[name].Called && Tbl(gopt)[name].UsedAlias == ""
+//@   ensures def.node: NodeOK(gopt.programTree)
+
+//@ func (*GetOpt).IntVar
+//@   props C06 C01 C02 C12 C19
+//@   requires def.gopt: gopt != nil && gopt.programTree != nil && NodeOK(gopt.programTree) && FnsOK(fns) && p != nil
+//@   maypanic def.invalid: name == "" || (name in Tbl(gopt))
+//@   allocates option.Option, map[string]string
+//@   modifies *p, mapof(gopt.programTree.ChildOptions)
+//@   ensures def.registered {C06}: (name in Tbl(gopt)) && fresh(Tbl(gopt)[name]) && Tbl(gopt)[name].pInt == p && Tbl(gopt)[name].OptType == option.IntType && Tbl(gopt)[name].Name == name
+//@   ensures def.kept {C06}: forall k string :: old(k in Tbl(gopt)) ==> (k in Tbl(gopt)) && Tbl(gopt)[k] == old(Tbl(gopt)[k])
+//@   ensures def.newkeys {C06}: forall k string :: (k in Tbl(gopt)) && !old(k in Tbl(gopt)) ==> Tbl(gopt)[k] == Tbl(gopt)[name]
+//@   ensures def.default {C06,C12}: len(fns) == 0 ==> *p == def && !Tbl(gopt)[name].Called && Tbl(gopt)[name].UsedAlias == ""
+//@   ensures def.node: NodeOK(gopt.programTree)
+//@   loop "for _, fn := range fns"
+//@     invariant defs.rec: (name in Tbl(gopt)) && Tbl(gopt)[name] == n && n != nil && fresh(n) && OptOK(n) && n.pInt == p && n.OptType == option.IntType && n.Name == name
+//@     invariant defs.kept: forall k string :: old(k in Tbl(gopt)) ==> (k in Tbl(gopt)) && Tbl(gopt)[k] == old(Tbl(gopt)[k])
+//@     invariant defs.newkeys: forall k string :: (k in Tbl(gopt)) && !old(k in Tbl(gopt)) ==> Tbl(gopt)[k] == n
+//@     invariant defs.node: NodeOK(gopt.programTree)
+//@     invariant defs.first: $idx == 0 - 1 ==> *p == def && !n.Called && n.UsedAlias == ""
+
+//@ func (*GetOpt).Int
+//@   props C06 C01 C02 C12 C19
+//@   requires def.gopt: gopt != nil && gopt.programTree != nil && NodeOK(gopt.programTree) && FnsOK(fns)
+//@   maypanic def.invalid: name == "" || (name in Tbl(gopt))
+//@   allocates option.Option, int
+//@   modifies mapof(gopt.programTree.ChildOptions)
+//@   ensures def.result {C06}: result != nil && fresh(result)
+//@   ensures def.registered {C06}: (name in Tbl(gopt)) && fresh(Tbl(gopt)[name]) && Tbl(gopt)[name].pInt == result && Tbl(gopt)[name].OptType == option.IntType && Tbl(gopt)[name].Name == name
+//@   ensures def.kept {C06}: forall k string :: old(k in Tbl(gopt)) ==> (k in Tbl(gopt)) && Tbl(gopt)[k] == old(Tbl(gopt)[k])
+//@   ensures def.newkeys {C06}: forall k string :: (k in Tbl(gopt)) && !old(k in Tbl(gopt)) ==> Tbl(gopt)[k] == Tbl(gopt)[name]
+//@   ensures def.default {C06,C12}: len(fns) == 0 ==> *result == def && !Tbl(gopt)[name].Called && Tbl(gopt)[name].UsedAlias == ""
+//@   ensures def.node: NodeOK(gopt.programTree)
+
+//@ func (*GetOpt).IntVarOptional
+//@   props C06 C01 C02 C12 C19
+//@   requires def.gopt: gopt != nil && gopt.programTree != nil && NodeOK(gopt.programTree) && FnsOK(fns) && p != nil
+//@   maypanic def.invalid: name == "" || (name in Tbl(gopt))
+//@   allocates option.Option, map[string]string
+//@   modifies *p, mapof(gopt.programTree.ChildOptions)
+//@   ensures def.registered {C06}: (name in Tbl(gopt)) && fresh(Tbl(gopt)[name]) && Tbl(gopt)[name].pInt == p && Tbl(gopt)[name].OptType == option.IntOptionalType && Tbl(gopt)[name].Name == name
+//@   ensures def.kept {C06}: forall k string :: old(k in Tbl(gopt)) ==> (k in Tbl(gopt)) && Tbl(gopt)[k] == old(Tbl(gopt)[k])
+//@   ensures def.newkeys {C06}: forall k string :: (k in Tbl(gopt)) && !old(k in Tbl(gopt)) ==> Tbl(gopt)[k] == Tbl(gopt)[name]
+//@   ensures def.default {C06,C12}: len(fns) == 0 ==> *p == def && !Tbl(gopt)[name].Called && Tbl(gopt)[name].UsedAlias == ""
+//@   ensures def.node: NodeOK(gopt.programTree)
+//@   loop "for _, fn := range fns"
+//@     invariant defs.rec: (name in Tbl(gopt)) && Tbl(gopt)[name] == n && n != nil && fresh(n) && OptOK(n) && n.pInt == p && n.OptType == option.IntOptionalType && n.Name == name
+//@     invariant defs.kept: forall k string :: old(k in Tbl(gopt)) ==> (k in Tbl(gopt)) && Tbl(gopt)[k] == old(Tbl(gopt)[k])
+//@     invariant defs.newkeys: forall k string :: (k in Tbl(gopt)) && !old(k in Tbl(gopt)) ==> Tbl(gopt)[k] == n
+//@     invariant defs.node: NodeOK(gopt.programTree)
+//@     invariant defs.first: $idx == 0 - 1 ==> *p == def && !n.Called && n.UsedAlias == ""
+
+//@ func (*GetOpt).IntOptional
+//@   props C06 C01 C02 C12 C19
+//@   requires def.gopt: gopt != nil && gopt.programTree != nil && NodeOK(gopt.programTree) && FnsOK(fns)
+//@   maypanic def.invalid: name == "" || (name in Tbl(gopt))
+//@   allocates option.Option, int
+//@   modifies mapof(gopt.programTree.ChildOptions)
+//@   ensures def.result {C06}: result != nil && fresh(result)
+//@   ensures def.registered {C06}: (name in Tbl(gopt)) && fresh(Tbl(gopt)[name]) && Tbl(gopt)[name].pInt == result && Tbl(gopt)[name].OptType == option.IntOptionalType && Tbl(gopt)[name].Name == name
+//@   ensures def.kept {C06}: forall k string :: old(k in Tbl(gopt)) ==> (k in Tbl(gopt)) && Tbl(gopt)[k] == old(Tbl(gopt)[k])
+//@   ensures def.newkeys {C06}: forall k string :: (k in Tbl(gopt)) && !old(k in Tbl(gopt)) ==> Tbl(gopt)[k] == Tbl(gopt)[name]
+//@   ensures def.default {C06,C12}: len(fns) == 0 ==> *result == def && !Tbl(gopt)[name].Called && Tbl(gopt)[name].UsedAlias == ""
+//@   ensures def.node: NodeOK(gopt.programTree)
+
+//@ func (*GetOpt).IncrementVar
+//@   props C06 C01 C02 C12 C19
+//@   requires def.gopt: gopt != nil && gopt.programTree != nil && NodeOK(gopt.programTree) && FnsOK(fns) && p != nil
+//@   maypanic def.invalid: name == "" || (name in Tbl(gopt))
+//@   allocates option.Option, map[string]string
+//@   modifies *p, mapof(gopt.programTree.ChildOptions)
+//@   ensures def.registered {C06}: (name in Tbl(gopt)) && fresh(Tbl(gopt)[name]) && Tbl(gopt)[name].pInt == p && Tbl(gopt)[name].OptType == option.IncrementType && Tbl(gopt)[name].Name == name
+//@   ensures def.kept {C06}: forall k string :: old(k in Tbl(gopt)) ==> (k in Tbl(gopt)) && Tbl(gopt)[k] == old(Tbl(gopt)[k])
+//@   ensures def.newkeys {C06}: forall k string :: (k in Tbl(gopt)) && !old(k in Tbl(gopt)) ==> Tbl(gopt)[k] == Tbl(gopt)[name]
+//@   ensures def.default {C06,C12}: len(fns) == 0 ==> *p == def && !Tbl(gopt)[name].Called && Tbl(gopt)[name].UsedAlias == ""
+//@   ensures def.node: NodeOK(gopt.programTree)
+//@   loop "for _, fn := range fns"
+//@     invariant defs.rec: (name in Tbl(gopt)) && Tbl(gopt)[name] == n && n != nil && fresh(n) && OptOK(n) && n.pInt == p && n.OptType == option.IncrementType && n.Name == name
+//@     invariant defs.kept: forall k string :: old(k in Tbl(gopt)) ==> (k in Tbl(gopt)) && Tbl(gopt)[k] == old(Tbl(gopt)[k])
+//@     invariant defs.newkeys: forall k string :: (k in Tbl(gopt)) && !old(k in Tbl(gopt)) ==> Tbl(gopt)[k] == n
+//@     invariant defs.node: NodeOK(gopt.programTree)
+//@     invariant defs.first: $idx == 0 - 1 ==> *p == def && !n.Called && n.UsedAlias == ""
+
+//@ func (*GetOpt).Increment
+//@   props C06 C01 C02 C12 C19
+//@   requires def.gopt: gopt != nil && gopt.programTree != nil && NodeOK(gopt.programTree) && FnsOK(fns)
+//@   maypanic def.invalid: name == "" || (name in Tbl(gopt))
+//@   allocates option.Option, int
+//@   modifies mapof(gopt.programTree.ChildOptions)
+//@   ensures def.result {C06}: result != nil && fresh(result)
+//@   ensures def.registered {C06}: (name in Tbl(gopt)) && fresh(Tbl(gopt)[name]) && Tbl(gopt)[name].pInt == result && Tbl(gopt)[name].OptType == option.IncrementType && Tbl(gopt)[name].Name == name
+//@   ensures def.kept {C06}: forall k string :: old(k in Tbl(gopt)) ==> (k in Tbl(gopt)) && Tbl(gopt)[k] == old(Tbl(gopt)[k])
+//@   ensures def.newkeys {C06}: forall k string :: (k in Tbl(gopt)) && !old(k in Tbl(gopt)) ==> Tbl(gopt)[k] == Tbl(gopt)[name]
+//@   ensures def.default {C06,C12}: len(fns) == 0 ==> *result == def && !Tbl(gopt)[name].Called && Tbl(gopt)[name].UsedAlias == ""
+//@   ensures def.node: NodeOK(gopt.programTree)
+
+//@ func (*GetOpt).Float64Var
+//@   props C06 C01 C02 C12 C19
+//@   requires def.gopt: gopt != nil && gopt.programTree != nil && NodeOK(gopt.programTree) && FnsOK(fns) && p != nil
+//@   maypanic def.invalid: name == "" || (name in Tbl(gopt))
+//@   allocates option.Option, map[string]string
+//@   modifies *p, mapof(gopt.programTree.ChildOptions)
+//@   ensures def.registered {C06}: (name in Tbl(gopt)) && fresh(Tbl(gopt)[name]) && Tbl(gopt)[name].pFloat64 == p && Tbl(gopt)[name].OptType == option.Float64Type && Tbl(gopt)[name].Name == name
+//@   ensures def.kept {C06}: forall k string :: old(k in Tbl(gopt)) ==> (k in Tbl(gopt)) && Tbl(gopt)[k] == old(Tbl(gopt)[k])
+//@   ensures def.newkeys {C06}: forall k string :: (k in Tbl(gopt)) && !old(k in Tbl(gopt)) ==> Tbl(gopt)[k] == Tbl(gopt)[name]
+//@   ensures def.default {C06,C12}: len(fns) == 0 ==> *p == def && !Tbl(gopt)[name].Called && Tbl(gopt)[name].UsedAlias == ""
+//@   ensures def.node: NodeOK(gopt.programTree)
+//@   loop "for _, fn := range fns"
+//@     invariant defs.rec: (name in Tbl(gopt)) && Tbl(gopt)[name] == n && n != nil && fresh(n) && OptOK(n) && n.pFloat64 == p && n.OptType == option.Float64Type && n.Name == name
+//@     invariant defs.kept: forall k string :: old(k in Tbl(gopt)) ==> (k in Tbl(gopt)) && Tbl(gopt)[k] == old(Tbl(gopt)[k])
+//@     invariant defs.newkeys: forall k string :: (k in Tbl(gopt)) && !old(k in Tbl(gopt)) ==> Tbl(gopt)[k] == n
+//@     invariant defs.node: NodeOK(gopt.programTree)
+//@     invariant defs.first: $idx == 0 - 1 ==> *p == def && !n.Called && n.UsedAlias == ""
+
+//@ func (*GetOpt).Float64
+//@   props C06 C01 C02 C12 C19
+//@   requires def.gopt: gopt != nil && gopt.programTree != nil && NodeOK(gopt.programTree) && FnsOK(fns)
+//@   maypanic def.invalid: name == "" || (name in Tbl(gopt))
+//@   allocates option.Option, float64
+//@   modifies mapof(gopt.programTree.ChildOptions)
+//@   ensures def.result {C06}: result != nil && fresh(result)
+//@   ensures def.registered {C06}: (name in Tbl(gopt)) && fresh(Tbl(gopt)[name]) && Tbl(gopt)[name].pFloat64 == result && Tbl(gopt)[name].OptType == option.Float64Type && Tbl(gopt)[name].Name == name
+//@   ensures def.kept {C06}: forall k string :: old(k in Tbl(gopt)) ==> (k in Tbl(gopt)) && Tbl(gopt)[k] == old(Tbl(gopt)[k])
+//@   ensures def.newkeys {C06}: forall k string :: (k in Tbl(gopt)) && !old(k in Tbl(gopt)) ==> Tbl(gopt)[k] == Tbl(gopt)[name]
+//@   ensures def.default {C06,C12}: len(fns) == 0 ==> *result == def && !Tbl(gopt)[name].Called && Tbl(gopt)[name].UsedAlias == ""
+//@   ensures def.node: NodeOK(gopt.programTree)
+
+//@ func (*GetOpt).Float64VarOptional
+//@   props C06 C01 C02 C12 C19
+//@   requires def.gopt: gopt != nil && gopt.programTree != nil && NodeOK(gopt.programTree) && FnsOK(fns) && p != nil
+//@   maypanic def.invalid: name == "" || (name in Tbl(gopt))
+//@   allocates option.Option, map[string]string
+//@   modifies *p, mapof(gopt.programTree.ChildOptions)
+//@   ensures def.registered {C06}: (name in Tbl(gopt)) && fresh(Tbl(gopt)[name]) && Tbl(gopt)[name].pFloat64 == p && Tbl(gopt)[name].OptType == option.Float64OptionalType && Tbl(gopt)[name].Name == name
+//@   ensures def.kept {C06}: forall k string :: old(k in Tbl(gopt)) ==> (k in Tbl(gopt)) && Tbl(gopt)[k] == old(Tbl(gopt)[k])
+//@   ensures def.newkeys {C06}: forall k string :: (k in Tbl(gopt)) && !old(k in Tbl(gopt)) ==> Tbl(gopt)[k] == Tbl(gopt)[name]
+//@   ensures def.default {C06,C12}: len(fns) == 0 ==> *p == def && !Tbl(gopt)[name].Called && Tbl(gopt)[name].UsedAlias == ""
+//@   ensures def.node: NodeOK(gopt.programTree)
+//@   loop "for _, fn := range fns"
+//@     invariant defs.rec: (name in Tbl(gopt)) && Tbl(gopt)[name] == n && n != nil && fresh(n) && OptOK(n) && n.pFloat64 == p && n.OptType == option.Float64OptionalType && n.Name == name
+//@     invariant defs.kept: forall k string :: old(k in Tbl(gopt)) ==> (k in Tbl(gopt)) && Tbl(gopt)[k] == old(Tbl(gopt)[k])
+//@     invariant defs.newkeys: forall k string :: (k in Tbl(gopt)) && !old(k in Tbl(gopt)) ==> Tbl(gopt)[k] == n
+//@     invariant defs.node: NodeOK(gopt.programTree)
+//@     invariant defs.first: $idx == 0 - 1 ==> *p == def && !n.Called && n.UsedAlias == ""
+
+//@ func (*GetOpt).Float64Optional
+//@   props C06 C01 C02 C12 C19
+//@   requires def.gopt: gopt != nil && gopt.programTree != nil && NodeOK(gopt.programTree) && FnsOK(fns)
+//@   maypanic def.invalid: name == "" || (name in Tbl(gopt))
+//@   allocates option.Option, float64
+//@   modifies mapof(gopt.programTree.ChildOptions)
+//@   ensures def.result {C06}: result != nil && fresh(result)
+//@   ensures def.registered {C06}: (name in Tbl(gopt)) && fresh(Tbl(gopt)[name]) && Tbl(gopt)[name].pFloat64 == result && Tbl(gopt)[name].OptType == option.Float64OptionalType && Tbl(gopt)[name].Name == name
+//@   ensures def.kept {C06}: forall k string :: old(k in Tbl(gopt)) ==> (k in Tbl(gopt)) && Tbl(gopt)[k] == old(Tbl(gopt)[k])
+//@   ensures def.newkeys {C06}: forall k string :: (k in Tbl(gopt)) && !old(k in Tbl(gopt)) ==> Tbl(gopt)[k] == Tbl(gopt)[name]
+//@   ensures def.default {C06,C12}: len(fns) == 0 ==> *result == def && !Tbl(gopt)[name].Called && Tbl(gopt)[name].UsedAlias == ""
+//@   ensures def.node: NodeOK(gopt.programTree)
+
+//@ func (*GetOpt).StringSliceVar
+//@   props C06 C01 C02 C12 C19
+//@   requires def.gopt: gopt != nil && gopt.programTree != nil && NodeOK(gopt.programTree) && FnsOK(fns) && p != nil
+//@   maypanic def.invalid: name == "" || (name in Tbl(gopt)) || !(1 <= min && min <= max)
+//@   allocates option.Option, map[string]string
+//@   modifies *p, mapof(gopt.programTree.ChildOptions)
+//@   ensures def.registered {C06}: (name in Tbl(gopt)) && fresh(Tbl(gopt)[name]) && Tbl(gopt)[name].pStringS == p && Tbl(gopt)[name].OptType == option.StringRepeatType && Tbl(gopt)[name].Name == name
+//@   ensures def.kept {C06}: forall k string :: old(k in Tbl(gopt)) ==> (k in Tbl(gopt)) && Tbl(gopt)[k] == old(Tbl(gopt)[k])
+//@   ensures def.newkeys {C06}: forall k string :: (k in Tbl(gopt)) && !old(k in Tbl(gopt)) ==> Tbl(gopt)[k] == Tbl(gopt)[name]
+//@   ensures def.default {C06}: len(fns) == 0 ==> !Tbl(gopt)[name].Called && Tbl(gopt)[name].UsedAlias == ""
+//@   ensures def.minmax {C02}: Tbl(gopt)[name].MinArgs == min && Tbl(gopt)[name].MaxArgs == max && 1 <= min && min <= max
+//@   ensures def.node: NodeOK(gopt.programTree)
+//@   loop "for _, fn := range fns"
+//@     invariant defs.rec: (name in Tbl(gopt)) && Tbl(gopt)[name] == n && n != nil && fresh(n) && OptOK(n) && n.pStringS == p && n.OptType == option.StringRepeatType && n.Name == name
+//@     invariant defs.kept: forall k string :: old(k in Tbl(gopt)) ==> (k in Tbl(gopt)) && Tbl(gopt)[k] == old(Tbl(gopt)[k])
+//@     invariant defs.newkeys: forall k string :: (k in Tbl(gopt)) && !old(k in Tbl(gopt)) ==> Tbl(gopt)[k] == n
+//@     invariant defs.node: NodeOK(gopt.programTree)
+//@     invariant defs.first: $idx == 0 - 1 ==> !n.Called && n.UsedAlias == ""
+//@     invariant defs.minmax: n.MinArgs == min && n.MaxArgs == max
+
+//@ func (*GetOpt).StringSlice
+//@   props C06 C01 C02 C12 C19
+//@   requires def.gopt: gopt != nil && gopt.programTree != nil && NodeOK(gopt.programTree) && FnsOK(fns)
+//@   maypanic def.invalid: name == "" || (name in Tbl(gopt)) || !(1 <= min && min <= max)
+//@   allocates option.Option, []string
+//@   modifies mapof(gopt.programTree.ChildOptions)
+//@   ensures def.result {C06}: result != nil && fresh(result)
+//@   ensures def.registered {C06}: (name in Tbl(gopt)) && fresh(Tbl(gopt)[name]) && Tbl(gopt)[name].pStringS == result && Tbl(gopt)[name].OptType == option.StringRepeatType && Tbl(gopt)[name].Name == name
+//@   ensures def.kept {C06}: forall k string :: old(k in Tbl(gopt)) ==> (k in Tbl(gopt)) && Tbl(gopt)[k] == old(Tbl(gopt)[k])
+//@   ensures def.newkeys {C06}: forall k string :: (k in Tbl(gopt)) && !old(k in Tbl(gopt)) ==> Tbl(gopt)[k] == Tbl(gopt)[name]
+//@   ensures def.default {C06}: len(fns) == 0 ==> !Tbl(gopt)[name].Called && Tbl(gopt)[name].UsedAlias == ""
+//@   ensures def.minmax {C02}: Tbl(gopt)[name].MinArgs == min && Tbl(gopt)[name].MaxArgs == max && 1 <= min && min <= max
+//@   ensures def.node: NodeOK(gopt.programTree)
+
+//@ func (*GetOpt).IntSliceVar
+//@   props C06 C01 C02 C12 C19
+//@   requires def.gopt: gopt != nil && gopt.programTree != nil && NodeOK(gopt.programTree) && FnsOK(fns) && p != nil
+//@   maypanic def.invalid: name == "" || (name in Tbl(gopt)) || !(1 <= min && min <= max)
+//@   allocates option.Option, map[string]string
+//@   modifies *p, mapof(gopt.programTree.ChildOptions)
+//@   ensures def.registered {C06}: (name in Tbl(gopt)) && fresh(Tbl(gopt)[name]) && Tbl(gopt)[name].pIntS == p && Tbl(gopt)[name].OptType == option.IntRepeatType && Tbl(gopt)[name].Name == name
+//@   ensures def.kept {C06}: forall k string :: old(k in Tbl(gopt)) ==> (k in Tbl(gopt)) && Tbl(gopt)[k] == old(Tbl(gopt)[k])
+//@   ensures def.newkeys {C06}: forall k string :: (k in Tbl(gopt)) && !old(k in Tbl(gopt)) ==> Tbl(gopt)[k] == Tbl(gopt)[name]
+//@   ensures def.default {C06}: len(fns) == 0 ==> !Tbl(gopt)[name].Called && Tbl(gopt)[name].UsedAlias == ""
+//@   ensures def.minmax {C02}: Tbl(gopt)[name].MinArgs == min && Tbl(gopt)[name].MaxArgs == max && 1 <= min && min <= max
+//@   ensures def.node: NodeOK(gopt.programTree)
+//@   loop "for _, fn := range fns"
+//@     invariant defs.rec: (name in Tbl(gopt)) && Tbl(gopt)[name] == n && n != nil && fresh(n) && OptOK(n) && n.pIntS == p && n.OptType == option.IntRepeatType && n.Name == name
+//@     invariant defs.kept: forall k string :: old(k in Tbl(gopt)) ==> (k in Tbl(gopt)) && Tbl(gopt)[k] == old(Tbl(gopt)[k])
+//@     invariant defs.newkeys: forall k string :: (k in Tbl(gopt)) && !old(k in Tbl(gopt)) ==> Tbl(gopt)[k] == n
+//@     invariant defs.node: NodeOK(gopt.programTree)
+//@     invariant defs.first: $idx == 0 - 1 ==> !n.Called && n.UsedAlias == ""
+//@     invariant defs.minmax: n.MinArgs == min && n.MaxArgs == max
+
+//@ func (*GetOpt).IntSlice
+//@   props C06 C01 C02 C12 C19
+//@   requires def.gopt: gopt != nil && gopt.programTree != nil && NodeOK(gopt.programTree) && FnsOK(fns)
+//@   maypanic def.invalid: name == "" || (name in Tbl(gopt)) || !(1 <= min && min <= max)
+//@   allocates option.Option, []int
+//@   modifies mapof(gopt.programTree.ChildOptions)
+//@   ensures def.result {C06}: result != nil && fresh(result)
+//@   ensures def.registered {C06}: (name in Tbl(gopt)) && fresh(Tbl(gopt)[name]) && Tbl(gopt)[name].pIntS == result && Tbl(gopt)[name].OptType == option.IntRepeatType && Tbl(gopt)[name].Name == name
+//@   ensures def.kept {C06}: forall k string :: old(k in Tbl(gopt)) ==> (k in Tbl(gopt)) && Tbl(gopt)[k] == old(Tbl(gopt)[k])
+//@   ensures def.newkeys {C06}: forall k string :: (k in Tbl(gopt)) && !old(k in Tbl(gopt)) ==> Tbl(gopt)[k] == Tbl(gopt)[name]
+//@   ensures def.default {C06}: len(fns) == 0 ==> !Tbl(gopt)[name].Called && Tbl(gopt)[name].UsedAlias == ""
+//@   ensures def.minmax {C02}: Tbl(gopt)[name].MinArgs == min && Tbl(gopt)[name].MaxArgs == max && 1 <= min && min <= max
+//@   ensures def.node: NodeOK(gopt.programTree)
+
+//@ func (*GetOpt).Float64SliceVar
+//@   props C06 C01 C02 C12 C19
+//@   requires def.gopt: gopt != nil && gopt.programTree != nil && NodeOK(gopt.programTree) && FnsOK(fns) && p != nil
+//@   maypanic def.invalid: name == "" || (name in Tbl(gopt)) || !(1 <= min && min <= max)
+//@   allocates option.Option, map[string]string
+//@   modifies *p, mapof(gopt.programTree.ChildOptions)
+//@   ensures def.registered {C06}: (name in Tbl(gopt)) && fresh(Tbl(gopt)[name]) && Tbl(gopt)[name].pFloat64S == p && Tbl(gopt)[name].OptType == option.Float64RepeatType && Tbl(gopt)[name].Name == name
+//@   ensures def.kept {C06}: forall k string :: old(k in Tbl(gopt)) ==> (k in Tbl(gopt)) && Tbl(gopt)[k] == old(Tbl(gopt)[k])
+//@   ensures def.newkeys {C06}: forall k string :: (k in Tbl(gopt)) && !old(k in Tbl(gopt)) ==> Tbl(gopt)[k] == Tbl(gopt)[name]
+//@   ensures def.default {C06}: len(fns) == 0 ==> !Tbl(gopt)[name].Called && Tbl(gopt)[name].UsedAlias == ""
+//@   ensures def.minmax {C02}: Tbl(gopt)[name].MinArgs == min && Tbl(gopt)[name].MaxArgs == max && 1 <= min && min <= max
+//@   ensures def.node: NodeOK(gopt.programTree)
+//@   loop "for _, fn := range fns"
+//@     invariant defs.rec: (name in Tbl(gopt)) && Tbl(gopt)[name] == n && n != nil && fresh(n) && OptOK(n) && n.pFloat64S == p && n.OptType == option.Float64RepeatType && n.Name == name
+//@     invariant defs.kept: forall k string :: old(k in Tbl(gopt)) ==> (k in Tbl(gopt)) && Tbl(gopt)[k] == old(Tbl(gopt)[k])
+//@     invariant defs.newkeys: forall k string :: (k in Tbl(gopt)) && !old(k in Tbl(gopt)) ==> Tbl(gopt)[k] == n
+//@     invariant defs.node: NodeOK(gopt.programTree)
+//@     invariant defs.first: $idx == 0 - 1 ==> !n.Called && n.UsedAlias == ""
+//@     invariant defs.minmax: n.MinArgs == min && n.MaxArgs == max
+
+//@ func (*GetOpt).Float64Slice
+//@   props C06 C01 C02 C12 C19
+//@   requires def.gopt: gopt != nil && gopt.programTree != nil && NodeOK(gopt.programTree) && FnsOK(fns)
+//@   maypanic def.invalid: name == "" || (name in Tbl(gopt)) || !(1 <= min && min <= max)
+//@   allocates option.Option, []float64
+//@   modifies mapof(gopt.programTree.ChildOptions)
+//@   ensures def.result {C06}: result != nil && fresh(result)
+//@   ensures def.registered {C06}: (name in Tbl(gopt)) && fresh(Tbl(gopt)[name]) && Tbl(gopt)[name].pFloat64S == result && Tbl(gopt)[name].OptType == option.Float64RepeatType && Tbl(gopt)[name].Name == name
+//@   ensures def.kept {C06}: forall k string :: old(k in Tbl(gopt)) ==> (k in Tbl(gopt)) && Tbl(gopt)[k] == old(Tbl(gopt)[k])
+//@   ensures def.newkeys {C06}: forall k string :: (k in Tbl(gopt)) && !old(k in Tbl(gopt)) ==> Tbl(gopt)[k] == Tbl(gopt)[name]
+//@   ensures def.default {C06}: len(fns) == 0 ==> !Tbl(gopt)[name].Called && Tbl(gopt)[name].UsedAlias == ""
+//@   ensures def.minmax {C02}: Tbl(gopt)[name].MinArgs == min && Tbl(gopt)[name].MaxArgs == max && 1 <= min && min <= max
+//@   ensures def.node: NodeOK(gopt.programTree)
+
+//@ func (*GetOpt).StringMapVar
+//@   props C06 C01 C02 C12 C19
+//@   requires def.gopt: gopt != nil && gopt.programTree != nil && NodeOK(gopt.programTree) && FnsOK(fns) && m != nil
+//@   maypanic def.invalid: name == "" || (name in Tbl(gopt)) || !(1 <= min && min <= max)
+//@   allocates option.Option, map[string]string
+//@   modifies *m, mapof(gopt.programTree.ChildOptions)
+//@   ensures def.registered {C06}: (name in Tbl(gopt)) && fresh(Tbl(gopt)[name]) && Tbl(gopt)[name].pStringM == m && Tbl(gopt)[name].OptType == option.StringMapType && Tbl(gopt)[name].Name == name
+//@   ensures def.kept {C06}: forall k string :: old(k in Tbl(gopt)) ==> (k in Tbl(gopt)) && Tbl(gopt)[k] == old(Tbl(gopt)[k])
+//@   ensures def.newkeys {C06}: forall k string :: (k in Tbl(gopt)) && !old(k in Tbl(gopt)) ==> Tbl(gopt)[k] == Tbl(gopt)[name]
+//@   ensures def.default {C06}: len(fns) == 0 ==> !Tbl(gopt)[name].Called && Tbl(gopt)[name].UsedAlias == ""
+//@   ensures def.minmax {C02}: Tbl(gopt)[name].MinArgs == min && Tbl(gopt)[name].MaxArgs == max && 1 <= min && min <= max
+//@   ensures def.node: NodeOK(gopt.programTree)
+//@   loop "for _, fn := range fns"
+//@     invariant defs.rec: (name in Tbl(gopt)) && Tbl(gopt)[name] == n && n != nil && fresh(n) && OptOK(n) && n.pStringM == m && n.OptType == option.StringMapType && n.Name == name
+//@     invariant defs.kept: forall k string :: old(k in Tbl(gopt)) ==> (k in Tbl(gopt)) && Tbl(gopt)[k] == old(Tbl(gopt)[k])
+//@     invariant defs.newkeys: forall k string :: (k in Tbl(gopt)) && !old(k in Tbl(gopt)) ==> Tbl(gopt)[k] == n
+//@     invariant defs.node: NodeOK(gopt.programTree)
+//@     invariant defs.first: $idx == 0 - 1 ==> !n.Called && n.UsedAlias == ""
+//@     invariant defs.minmax: n.MinArgs == min && n.MaxArgs == max
+
+//@ func (*GetOpt).StringMap
+//@   props C06 C01 C02 C12 C19
+//@   requires def.gopt: gopt != nil && gopt.programTree != nil && NodeOK(gopt.programTree) && FnsOK(fns)
+//@   maypanic def.invalid: name == "" || (name in Tbl(gopt)) || !(1 <= min && min <= max)
+//@   allocates option.Option, map[string]string
+//@   modifies mapof(gopt.programTree.ChildOptions)
+//@   ensures def.registered {C06}: (name in Tbl(gopt)) && fresh(Tbl(gopt)[name]) && *Tbl(gopt)[name].pStringM == result && Tbl(gopt)[name].OptType == option.StringMapType && Tbl(gopt)[name].Name == name && result != nil
+//@   ensures def.kept {C06}: forall k string :: old(k in Tbl(gopt)) ==> (k in Tbl(gopt)) && Tbl(gopt)[k] == old(Tbl(gopt)[k])
+//@   ensures def.newkeys {C06}: forall k string :: (k in Tbl(gopt)) && !old(k in Tbl(gopt)) ==> Tbl(gopt)[k] == Tbl(gopt)[name]
+//@   ensures def.default {C06}: len(fns) == 0 ==> !Tbl(gopt)[name].Called && Tbl(gopt)[name].UsedAlias == ""
+//@   ensures def.minmax {C02}: Tbl(gopt)[name].MinArgs == min && Tbl(gopt)[name].MaxArgs == max && 1 <= min && min <= max
+//@   ensures def.node: NodeOK(gopt.programTree)
